@@ -113,8 +113,11 @@ def run(ctx):
         return
     quick = ctx.tier == "quick"
     types = BIG + FIXED
-    h = Harness("c08", FEATURE_SETS["all"], prelude=B.prelude(BASES, types))
+    from .added import PRELUDE as AD_PRELUDE
+    h = Harness("c08", FEATURE_SETS["all"], prelude=B.prelude(BASES, types) + AD_PRELUDE)
     units = convlib.select_units(t, ctx.rng.fork("units"), 60 if quick else 500)
+    from . import added as AD
+    units = list(units) + AD.pairs(t)
     cases, meta, mlines = [], {}, []
     bslots = {}
     for ty in types:
